@@ -65,6 +65,9 @@ def with_twins(module):
                 tw["doc"] = {"lines": ["Twin of the previous command. TW" + it["doc"]["marker"]], "form": "leader",
                              "marker": "TW" + it["doc"]["marker"]} if it["doc"].get("marker") else copy.deepcopy(it["doc"])
                 out.append(tw)
+            if it["k"] in ("set", "option") and it.get("doc") and it["doc"].get("marker") and \
+                    int("".join(ch for ch in it["doc"]["marker"] if ch.isdigit()) or 1) % 3 == 0:
+                out.append(copy.deepcopy(it))          # the same declaration once more, word for word
             if it["k"] == "option" and it.get("doc") and it["default"] is not None and plain(it["help"]) and plain(it["default"]):
                 tw = copy.deepcopy(it)
                 tw["help"], tw["default"] = it["help"] + it["default"], None
